@@ -450,6 +450,13 @@ def assume_variant(te, t, x, vname, preds=PTR_PREDICATES):
             inner = go(u[2])
             b = _as_bool(inner)
             return _const_bool(not b) if b is not None else ("un", "Not", inner) + tuple(u[3:])
+        if u[0] == "field" and isinstance(u[1], tuple):
+            inner = go(u[1])
+            si = strip(inner)
+            if isinstance(si, tuple) and si and si[0] == "agg" and si[1] in ("tuple", "array") and str(u[2]).isdigit() and \
+                    int(u[2]) < len(si[4]):
+                return si[4][int(u[2])]
+            return ("field", inner) + tuple(u[2:])
         if u[0] == "gamma":
             c = strip(u[1])
             if isinstance(c, tuple) and c and c[0] == "discr" and is_x(c[1]):
@@ -500,7 +507,31 @@ def feasible_alternatives(te, phi, x, vname, preds=PTR_PREDICATES):
     return out
 
 
-def paths_under(fn, x, vname, preds=PTR_PREDICATES, max_paths=64):
+def _apply_conds(t, conds):
+    """resolve the choices in t whose test is one of the open tests decided along the path"""
+    known = {repr(strip(c)): lab for c, lab, _ in conds}
+
+    def go(u):
+        if not isinstance(u, tuple) or not u:
+            return u
+        if u[0] == "gamma":
+            lab = known.get(repr(strip(u[1])))
+            if lab is not None:
+                for l_, v in u[2]:
+                    if l_ == lab:
+                        return go(v)
+                for l_, v in u[2]:
+                    if isinstance(l_, tuple) and l_[0] == "not" and isinstance(lab, str) and lab not in l_[1]:
+                        return go(v)
+                    if isinstance(lab, tuple) and lab[0] == "not" and isinstance(l_, str) and l_ not in lab[1]:
+                        return go(v)
+        if u[0] == "call":
+            return (u[0], u[1], tuple(go(a) for a in u[2])) + tuple(u[3:])
+        return tuple(go(a) if isinstance(a, tuple) else a for a in u)
+    return go(t)
+
+
+def paths_under(fn, x, vname, preds=PTR_PREDICATES, max_paths=64, with_conds=False):
     """the values fn can return when the term x is of variant `vname`: the CFG is walked, every branch whose condition
     folds to a constant under that assumption takes its one successor (others fork), joins are resolved by the path
     walked.  Returns a list of return terms (choices on x already resolved), or None on path explosion / loops."""
@@ -539,27 +570,41 @@ def paths_under(fn, x, vname, preds=PTR_PREDICATES, max_paths=64):
             return (u[0], u[1], tuple(resolve(a, path) for a in u[2])) + tuple(u[3:])
         return tuple(resolve(a, path) if isinstance(a, tuple) else a for a in u)
 
-    def walk(b, path):
+    def walk(b, path, conds):
         if len(results) > max_paths or len(path) > 200:
             raise OverflowError()
         path = path + [b]
         t = fn.blocks[b]["term"]
         if t["k"] == "return":
-            results.append(assume_variant(te, resolve(te.ret, path), x, vname, preds))
+            r = assume_variant(te, resolve(te.ret, path), x, vname, preds)
+            r = _apply_conds(r, conds)
+            results.append((r, conds) if with_conds else r)
             return
+        forks = None
         if t["k"] == "switch" and b in te.switch_term:
             c, vm = te.switch_term[b]
             nxt = pick(t, vm, c)
             if nxt is None:
-                nxt = list(dict.fromkeys([s for _, s in t["targets"]] + [t["otherwise"]]))
+                # an open test: fork, remembering which outcome each branch stands for
+                forks = []
+                for lab, s in t["targets"]:
+                    forks.append((s, (c, lab, vm)))
+                forks.append((t["otherwise"], (c, ("not", tuple(l_ for l_, _ in t["targets"])), vm)))
+                nxt = None
         else:
             nxt = list(cfg.succ[b])
+        if forks is not None:
+            for s, cd in forks:
+                if s in path or fn.blocks[s]["term"]["k"] == "unreachable":
+                    continue
+                walk(s, path, conds + [cd])
+            return
         for s in nxt:
             if s in path or fn.blocks[s]["term"]["k"] == "unreachable":
                 continue
-            walk(s, path)
+            walk(s, path, conds)
     try:
-        walk(0, [])
+        walk(0, [], [])
     except (OverflowError, RecursionError):
         return None
     return results
